@@ -67,6 +67,13 @@ def modes():
     M["location"] = ("qartod.location_test", lambda x, r, h: dict(
         lon=data(x, h), lat=data([None if v is None and r.random() < 0.7 else 0.5 * k for k, v in enumerate(x)], h),
         bbox=r.choice([(-180, -90, 180, 90), [-3, -1, 3, 20]]), range_max=r.choice([None, 1000.0, 1e6])), False, True)
+    M["location-repeated-fix"] = ("qartod.location_test", lambda x, r, h: dict(
+        lon=data([None if (v is None and k > 1) else 10.0 + 0.5 * (k // 3) for k, v in enumerate(x)], h),
+        lat=data([None if (v is None and k > 1) else 50.0 for k, v in enumerate(x)], h), range_max=r.choice([1000.0, 1e6])), False, True)
+    M["speed-repeated-fix"] = ("argo.speed_test", lambda x, r, h: dict(
+        lon=data([None if (v is None and k > 1) else 10.0 + 0.5 * (k // 3) for k, v in enumerate(x)], h),
+        lat=data([None if (v is None and k > 1) else 50.0 for k, v in enumerate(x)], h), tinp=T(len(x)),
+        suspect_threshold=1, fail_threshold=3), False, True)
     M["location-default"] = ("qartod.location_test", lambda x, r, h: dict(lon=data(x, h), lat=data(x, h)), False, True)
     for k, mem in clim_members.items():
         M[f"climatology-{k}"] = ("qartod.climatology_test", lambda x, r, h, mem=mem: dict(
